@@ -18,7 +18,7 @@ pub fn word_flat(w: &WordS, amer: bool) -> String {
     s
 }
 
-fn cps(t: &str) -> String { t.chars().map(|c| (c as u32).to_string()).collect::<Vec<_>>().join(" ") }
+pub fn cps(t: &str) -> String { t.chars().map(|c| (c as u32).to_string()).collect::<Vec<_>>().join(" ") }
 
 /// bases, base+1 diacritic, (thorough) base+2 diacritics, and one-feature changes of those: distinct bundles with a text that produced them
 pub fn segment_space(thorough: bool) -> Vec<SegS> {
@@ -52,7 +52,7 @@ pub fn segment_space(thorough: bool) -> Vec<SegS> {
 fn render_seg(s: SegS) -> Out<String> { guarded(|| verif::render_word(&one(s), &[])) }
 
 /// random word assembled from the segment space
-fn assemble(g: &mut Gen, space: &[SegS]) -> WordS {
+pub fn assemble(g: &mut Gen, space: &[SegS]) -> WordS {
     let nsyll = 1 + g.rng.below(3);
     let mut sylls = Vec::new();
     for _ in 0..nsyll {
@@ -67,7 +67,7 @@ fn assemble(g: &mut Gen, space: &[SegS]) -> WordS {
     WordS { sylls }
 }
 
-fn order_line(keys_file: &str) -> String {
+pub fn order_line(keys_file: &str) -> String {
     let txt = std::fs::read_to_string(keys_file).expect("cardinal_keys.txt from the translator");
     let file_keys: Vec<String> = txt.lines().map(|l| l.split(',').filter(|x| !x.is_empty()).map(|x| char::from_u32(x.parse().unwrap()).unwrap()).collect::<String>()).collect();
     let idx: std::collections::HashMap<&str, usize> = file_keys.iter().enumerate().map(|(i, k)| (k.as_str(), i)).collect();
